@@ -36,7 +36,8 @@ ASSUMPTIONS = ['python == of two collections.OrderedDicts is order-sensitive, eq
                'np.vectorize(eq) visits every cell of two equally shaped arrays; list(pd.Index) yields the labels as the python / pandas scalars the wire format spells (a NaN among datetime labels is NaT, which the model treats as the NaN label it is spelled as)',
                'object identity (the `x is y` shortcut) is not modelled: every call decodes fresh objects; the shared np.nan object is generated (NF:nan)',
                'numbers are spelled exactly (ints of any size, floats that are multiples of 1/4 - 2**53 and its neighbours included); np.float32 scalars and arrays hold such values exactly',
-               'dict keys are distinct strings; pandas extension arrays and their pd.NA, timedelta64 units finer than ns (ps, fs, as: after C14-F9 such a duration equals only timedelta64s numpy calls equal, never a number - probed, not generated; datetime64 in ps / fs / as IS generated since C14-F10, but not as an axis label), out-of-bounds datetime64 / timedelta64, tz-aware timestamps, complex / Decimal NaN, None labels and Series names are outside the universe']
+               'dict keys are distinct strings; pandas extension arrays and their pd.NA, timedelta64 units finer than ns (ps, fs, as: after C14-F9 such a duration equals only timedelta64s numpy calls equal, never a number - probed, not generated; datetime64 in ps / fs / as IS generated since C14-F10, but not as an axis label), out-of-bounds datetime64 / timedelta64, tz-aware timestamps, complex / Decimal NaN, None labels and Series names are outside the universe',
+               'np.longdouble / np.clongdouble (imaginary part 0) are the exact numbers they hold (true of the code since C14-F11); only real multiples of 1/4 are spelled (LF: / LC:), a longdouble that is neither whole nor a float64 is probed, not generated; 2**64 as the first integer gap assumes the x86 80-bit type']
 
 D = datetime.datetime
 BIG = 2 ** 53
